@@ -949,12 +949,18 @@ class BackendZ3(Backend):
 
                 # Construct the extra constraint so we don't get the same result anymore
                 if i + 1 != n:
+                    # a string value is the characters themselves: it must not go through Z3's escape syntax
+                    # again (see StringV), or the clause excludes a different string and the value is returned twice
+                    blocked = [
+                        z3.StringVal(v.replace("\\", "\\u{5c}"), ctx=self._context) if isinstance(v, str) else v
+                        for v in r
+                    ]
                     if len(exprs) == 1:
-                        solver.add(exprs[0] != r[0])
+                        solver.add(exprs[0] != blocked[0])
                     else:
                         solver.add(
                             self._op_raw_Not(
-                                self._op_raw_And(*[(ex == ex_v) for ex, ex_v in zip(exprs, r, strict=False)])
+                                self._op_raw_And(*[(ex == ex_v) for ex, ex_v in zip(exprs, blocked, strict=False)])
                             )
                         )
                     model = None
